@@ -14,7 +14,8 @@ MODES = {
     'C06': ['c03_tables', 'c02_tables'],
     'C07': ['c07_ol', 'c16_prefix'],
     'C14': ['c14_hardwrap'],
-    'C16': ['c16_prefix', 'c16_trivial'],
+    'C16': ['c16_prefix', 'c16_trivial', 'c16_affix'],
+    'C09': ['c16_affix'],
     'C19': ['c19', 'c19_inherit'],
     'C20': ['c20_nth'],
 }
